@@ -100,6 +100,8 @@ Definition allowed_pkg_calls : list (string * string) :=
     ("unix.Socket", "unix.AF_UNIX, unix.SOCK_DGRAM, 0");
     ("unix.Bind", "fd, &unix.SockaddrUnix{Name: local}");
     ("unix.Close", "fd");
+    (* the delete walk: over the root's own fs.FS *)
+    ("fs.WalkDir", "rt.DestRoot.FS(), ""."", <func>");
     (* renameio with the root passed explicitly *)
     ("renameio.SymlinkRoot", "root, oldname, newname");
     ("renameio.NewPendingFile", "fn, renameio.WithRoot(root)");
@@ -113,6 +115,7 @@ Definition site_ok (s : string * string * string * string) : bool :=
   else if String.eqb kind "handle" then true
   else if String.eqb kind "path" then true
   else if String.eqb kind "roothelper" then String.prefix "rt.DestRoot, f." args
+  else if String.eqb kind "guard" then true
   else if String.eqb kind "pkg" then existsb (pair_eqb (callee, args)) allowed_pkg_calls
   else false.
 
@@ -134,3 +137,36 @@ Definition subdir_ok : bool :=
 
 Lemma inventory_ok : forallb site_ok fs_sites = true /\ bind_path_ok = true /\ subdir_ok = true.
 Proof. vm_compute. repeat split; reflexivity. Qed.
+
+(** ** the sending side only reads, and only through its source *)
+Definition sender_site_ok (s : string * string * string * string) : bool :=
+  let '(where_, kind, callee, args) := s in
+  if String.eqb kind "path" then true
+  else if String.eqb kind "root" || String.eqb kind "source" then
+    existsb (String.eqb callee) ["Open"; "Readlink"; "FS"; "Close"]
+  else if String.eqb kind "pkg" then
+    existsb (pair_eqb (callee, args))
+      [("os.OpenRoot", "s.localDir"); ("fs.WalkDir", "s.source.FS(), filepath.Clean(rootname), s.walkFn")]
+  else false.
+
+Lemma sender_inventory_ok : forallb sender_site_ok sender_fs_sites = true.
+Proof. vm_compute. reflexivity. Qed.
+
+(** ** the daemon's receive handler checks Module.Writable before any file-system call *)
+Definition in_recv_handler (s : string * string * string * string) : bool :=
+  let '(w, _, _, _) := s in String.eqb w "rsyncd/rsyncd.go:handleConnReceiver".
+Definition touches_fs (s : string * string * string * string) : bool :=
+  let '(_, kind, _, _) := s in String.eqb kind "root" || String.eqb kind "pkg" || String.eqb kind "roothelper" || String.eqb kind "handle".
+Definition is_guard (s : string * string * string * string) : bool :=
+  let '(_, kind, callee, args) := s in String.eqb kind "guard" && String.eqb callee "!module.Writable" && String.eqb args "return".
+
+(** sites of the handler before the first file-system call *)
+Fixpoint before_first_fs (l : list (string * string * string * string)) : list (string * string * string * string) :=
+  match l with
+  | [] => []
+  | s :: r => if touches_fs s then [] else s :: before_first_fs r
+  end.
+
+Lemma writable_guard_first :
+  existsb is_guard (before_first_fs (filter in_recv_handler fs_sites)) = true.
+Proof. vm_compute. reflexivity. Qed.
